@@ -273,6 +273,23 @@ func c02Spaces(tier string) []*explore.Space {
 			p7 = append(p7, hostCase{relPath(withPred(h, gen.B("and", gen.F("not", m), relPath(gen.Ch("a"))))), relPath(h)})
 		}
 	}
+	// P8: a predicated step that is NOT the last step: every candidate that passes
+	// the predicate must be handed on to the following step(s), nested candidates included
+	var p8 []hostCase
+	for _, pre := range [][]gen.Step{nil, {gen.Ch("*")}, {gen.DSlash()}} {
+		for _, h := range []gen.Step{gen.St("descendant", "a"), gen.St("descendant", "*"), gen.St("descendant-or-self", "*"), gen.St("descendant-or-self", "node()"), gen.Ch("*"), gen.Ch("a"),
+			gen.St("ancestor", "*"), gen.St("following", "*"), gen.St("preceding-sibling", "node()")} {
+			for _, a := range sm {
+				for _, cont := range [][]gen.Step{{gen.St("descendant", "a")}, {gen.St("descendant", "node()")}, {gen.Ch("*")}, {gen.At("*")}, {gen.DotDot()}, {gen.St("descendant-or-self", "node()")},
+					{gen.St("following-sibling", "*")}, {gen.DSlash(), gen.Ch("a")}, {gen.St("ancestor", "a")}, {gen.Ch("*"), gen.St("descendant", "*")}} {
+					abs := len(pre) > 0 && pre[0].Abbr == "//"
+					ws := append(append(append([]gen.Step{}, pre...), withPred(h, a)), cont...)
+					bs := append(append(append([]gen.Step{}, pre...), h), cont...)
+					p8 = append(p8, hostCase{&gen.Path{Abs: abs, Steps: ws}, &gen.Path{Abs: abs, Steps: bs}})
+				}
+			}
+		}
+	}
 	t3 := func() []*doc.Tree { return uniT(3) }
 	t4 := func() []*doc.Tree { return uniT(4) }
 	if tier == "thorough" {
@@ -284,6 +301,8 @@ func c02Spaces(tier string) []*explore.Space {
 			hostSpace("P5xT4", "existence of two-step paths over all 144 axis pairs, paths with a nested predicate on the last step x T(<=4)", p5, t4, "C02"),
 			hostSpace("P6xT4", "comparisons with two candidate-dependent operands (count vs count, path vs path) x T(<=4)", p6, t4, "C02"),
 			hostSpace("P7xT4", "and/or with a multi-step path carrying a last-step predicate as one operand, both orders x T(<=4)", p7, t4, "C02"),
+			hostSpace("P8xT4", "prefix/host[atom]/continuation: a predicated step followed by further steps x T(<=4)", p8, t4, "C02"),
+			hostSpace("P8/4xDeep6", "fixed stratum (every 4th) of predicated step followed by further steps x spine documents", strideCases(p8, 4), func() []*doc.Tree { return uniDeep(6) }, "C02"),
 			hostSpace("P1xDeep7", "step[atom] x spine documents of depth 4..7", p1, func() []*doc.Tree { return uniDeep(7) }, "C02"),
 			hostSpace("P5/4xDeep6", "fixed stratum of two-step existence / nested predicates x spine documents", strideCases(p5, 4), func() []*doc.Tree { return uniDeep(6) }, "C02"),
 		}
@@ -309,6 +328,8 @@ func c02Spaces(tier string) []*explore.Space {
 		hostSpace("P5/3xT3", "fixed stratum (every 3rd) of: existence of two-step paths over all 144 axis pairs, paths with a nested predicate on the last step x T(<=3)", strideCases(p5, 3), t3, "C02"),
 		hostSpace("P6/2xT3", "fixed stratum (every 2nd) of comparisons with two candidate-dependent operands x T(<=3)", strideCases(p6, 2), t3, "C02"),
 		hostSpace("P7xT3", "and/or with a multi-step path carrying a last-step predicate as one operand, both orders x T(<=3)", p7, t3, "C02"),
+		hostSpace("P8xT3", "prefix/host[atom]/continuation: a predicated step followed by further steps x T(<=3)", p8, t3, "C02"),
+		hostSpace("P8/8xDeep5", "fixed stratum (every 8th) of predicated step followed by further steps x spine documents of depth 4..5", strideCases(p8, 8), func() []*doc.Tree { return uniDeep(5) }, "C02"),
 		hostSpace("P1/4xDeep6", "fixed stratum (every 4th) of step[atom] x spine documents of depth 4..6", strideCases(p1, 4), func() []*doc.Tree { return uniDeep(6) }, "C02"),
 	}
 }
@@ -334,7 +355,7 @@ func init() {
 		ID: "C02", Level: "exploration",
 		Rule: "every predicated step of named finite slices (hosts: all step forms, prefixes, parenthesised hosts; predicates: path existence over 12 axes, =/!= literals, numeric relations, count/contains/starts-with/local-name, not/and/or, two predicates, nesting depth 2; parenthesised paths with 2-3 predicates, also as argument / inside a predicate; and/or whose operands are multi-step paths with a last-step predicate, both orders) is evaluated on every document of the universe from every context node and compared as a node set with the reference; non-trivial = the predicates keep a strict non-empty subset of the host's candidates; distinct = distinct expressions with a non-trivial case",
 		Assumptions:    []string{"hand-written reference evaluator", "lawful NodeNavigator", "bounded trees and predicate nesting <= 2"},
-		Budget:         budget(90*time.Second, 30*time.Minute),
+		Budget:         budget(150*time.Second, 30*time.Minute),
 		MinRefOutcomes: 2,
 		Spaces:         c02Spaces,
 	})
